@@ -111,7 +111,7 @@ def _run_history_chunk(cases):
 
 def hash_cases(ctx, scale=1.0):
     rng = ctx.rng
-    strings = mg.fixed_hash_strings() + mg.hash_strings(rng, int(ctx.n(5000, 250000) * scale))
+    strings = mg.fixed_hash_strings() + mg.hash_strings(rng, int(ctx.n(12000, 250000) * scale))
     cases = []
     for label, v in strings:
         for entry in ('ctor', 'xt', 'infohash'):
@@ -170,7 +170,7 @@ def history_cases(ctx, scale=1.0):
     rng = ctx.rng
     cases = []
     pool = mg.fixed_hash_strings()
-    for _ in range(int(ctx.n(1500, 40000) * scale)):
+    for _ in range(int(ctx.n(4000, 40000) * scale)):
         ops = []
         for _ in range(rng.randint(2, 6)):
             label, v = rng.choice(pool) if rng.random() < 0.5 else mg.hash_strings(rng, 1)[0]
@@ -411,6 +411,13 @@ def getinfo_scenarios(ctx, scale=1.0):
         for kind in ('xs', 'as_', 'ws', 'tr'):
             for payload in ('match', 'mismatch', 'garbage', 'notfound'):
                 sc.append({'notation': notation, 'sources': [(kind, payload)], 'validate': True})
+    # tracker request encoding: hashes whose bytes need every branch of quote_from_bytes
+    special = [bytes([0x20, 0x2f, 0x7e, 0x2b, 0x25, 0x00, 0xff, 0x41, 0x7a, 0x30, 0x2d, 0x2e, 0x5f, 0x26, 0x3d, 0x3f, 0x23, 0x0a, 0x80, 0x7f]).hex(),
+               bytes(range(0x1c, 0x30)).hex(), bytes(range(0x2f, 0x43)).hex(), bytes(range(0x50, 0x64)).hex(),
+               bytes(range(0x6c, 0x80)).hex()]
+    for hx in special + [bytes(rng.randrange(256) for _ in range(20)).hex() for _ in range(ctx.n(20, 300))]:
+        sc.append({'notation': rng.choice(['hex-lower', 'hex-upper', 'b32-upper', 'b32-lower']), 'hash_hex': hx,
+                   'sources': [('tr', rng.choice(['notfound', 'garbage', 'mismatch']))], 'validate': True})
     for _ in range(int(ctx.n(60, 500) * scale)):
         n = rng.randint(1, 5)
         srcs = []
@@ -437,8 +444,9 @@ def _run_getinfo_chunk(scs):
         for si, s in enumerate(scs):
             import random
             rng = random.Random(s.get('seed', si))
-            nots = mg.notations(ih)
-            nots['hex-mixed'] = mg.randcase(rng, ih)
+            ih_s = s.get('hash_hex', ih)          # hash of the magnet (default: the matching torrent's)
+            nots = mg.notations(ih_s)
+            nots['hex-mixed'] = mg.randcase(rng, ih_s)
             nots['b32-mixed'] = mg.randcase(rng, nots['b32-upper'])
             own = nots[s['notation']]
             srv.routes.clear()
@@ -490,7 +498,7 @@ def _run_getinfo_chunk(scs):
                 obs['name'] = t.name
             except BaseException as e:  # noqa
                 obs['torrent_infohash'] = 'raised:' + type(e).__name__
-            out.append({'scenario': s, 'own': own, 'ih': ih, 'ih_bad': ih_bad, 'kw': kw, 'served': served,
+            out.append({'scenario': s, 'own': own, 'ih': ih, 'own_hex': ih_s, 'ih_bad': ih_bad, 'kw': kw, 'served': served,
                         'port': srv.port, 'obs': obs})
     finally:
         srv.close()
@@ -533,7 +541,9 @@ def eval_getinfo(ctx, drv, scs):
         s, o = res['scenario'], res['obs']
         case = {'kind': 'getinfo', 'notation': s['notation'], 'own': res['own'], 'sources': [list(x) for x in res['served']],
                 'validate': s['validate'], 'udp_tracker': s.get('udp_tracker', False), 'ws_slash': s.get('ws_slash', False)}
-        ctx.case(key=('gi', s['notation'], tuple(res['served']), s['validate']), nontrivial=True,
+        if 'hash_hex' in s:
+            case['hash_hex'] = s['hash_hex']
+        ctx.case(key=('gi', s['notation'], tuple(res['served']), s['validate'], s.get('hash_hex')), nontrivial=True,
                  kind='getinfo/' + s['notation'] + '/' + '+'.join(k for k, _ in res['served']))
         # --- specification, straight from the property: sources in order; a readable torrent is adopted iff it
         #     denotes the magnet's hash; with validation a readable torrent with another hash raises MetainfoError
@@ -558,8 +568,8 @@ def eval_getinfo(ctx, drv, scs):
             served_hash = res['ih'] if res['served'][consulted - 1][1] == 'match' else res['ih_bad']
             exp_t = {'torrent_infohash': served_hash, 'has_pieces': True}
         else:
-            exp_t = {'torrent_infohash': res['ih'], 'has_pieces': False}
-        enc = urllib.parse.quote_from_bytes(bytes.fromhex(res['ih']))
+            exp_t = {'torrent_infohash': res['own_hex'], 'has_pieces': False}
+        enc = urllib.parse.quote_from_bytes(bytes.fromhex(res['own_hex']))
         exp_paths = []
         for k, (kind, payload) in enumerate(res['served'][:consulted]):
             exp_paths.append('/file?info_hash=' + enc if kind == 'tr' else f'/s{k}/t.torrent')
@@ -638,7 +648,8 @@ def replay(ctx, drv, rp):
     elif k == 'getinfo':
         eval_getinfo(ctx, drv, [{'notation': c['notation'], 'sources': [tuple(x) for x in c['sources']],
                                  'validate': c['validate'], 'udp_tracker': c.get('udp_tracker', False),
-                                 'ws_slash': c.get('ws_slash', False)}])
+                                 'ws_slash': c.get('ws_slash', False),
+                                 **({'hash_hex': c['hash_hex']} if 'hash_hex' in c else {})}])
     else:
         # xl / urls cases carry Python values by repr only: re-run the whole (deterministic) stream
         eval_xl(ctx, drv)
